@@ -30,8 +30,9 @@ type LbOp struct {
 	Name   int    `json:"name,omitempty"`
 	W      int    `json:"w,omitempty"`
 	Addr   string `json:"addr,omitempty"`
-	S      string `json:"s,omitempty"` // strategy name
-	Pre    bool   `json:"pre,omitempty"` // begin: the client is already gone when the request reaches the balancer (context cancelled)
+	S      string `json:"s,omitempty"`    // strategy name
+	Meth   string `json:"meth,omitempty"` // begin: request method (GET when empty); the accounting must not depend on it
+	Pre    bool   `json:"pre,omitempty"`  // begin: the client is already gone when the request reaches the balancer (context cancelled)
 }
 type LbCase struct {
 	Strategy                                string
@@ -98,7 +99,11 @@ func (r *lbRunner) emit(op string, ob string) {
 }
 
 func (r *lbRunner) begin(op LbOp) {
-	req, _ := http.NewRequest("GET", "http://lb.local/x", nil)
+	meth := op.Meth
+	if meth == "" {
+		meth = "GET"
+	}
+	req, _ := http.NewRequest(meth, "http://lb.local/x", nil)
 	if op.XFF != "" {
 		req.Header.Set("X-Forwarded-For", op.XFF)
 	}
@@ -323,6 +328,9 @@ func runLbCase(c *LbCase) (string, map[string]int) {
 			case x < 38:
 				cl := clients[g.Intn(len(clients))]
 				op = LbOp{K: "begin", Rid: r.nextRid, XFF: cl.XFF, XRI: cl.XRI, Remote: cl.Remote, Pre: g.Chance(6)}
+				if g.Chance(25) {
+					op.Meth = g.PickS([]string{"POST", "PUT", "DELETE", "HEAD", "OPTIONS", "PATCH", "TRACE"})
+				}
 				if op.Remote == "" {
 					op.Remote = fmt.Sprintf("192.0.2.%d:%d", g.Range(1, 3), g.Range(1024, 60000))
 				}
@@ -438,6 +446,25 @@ func lbCorpus() []LbCase {
 		{K: "begin", Rid: 1, Remote: "10.0.0.1:1"}, {K: "begin", Rid: 2, Remote: "10.0.0.1:1"}, {K: "rm", Name: 1}, {K: "add", Name: 1, W: 1, Addr: "http://b1b.invalid:80"},
 		{K: "begin", Rid: 3, Remote: "10.0.0.1:1"}, {K: "begin", Rid: 4, Remote: "10.0.0.1:1"}, {K: "end", Rid: 1, Code: 200}, {K: "end", Rid: 2, Code: 200},
 		{K: "metrics"}, {K: "list"}, {K: "drain"}, {K: "metrics"}}})
+	// C13: every method is counted (TRACE, OPTIONS, HEAD included)
+	{
+		var ops []LbOp
+		for i, m := range []string{"GET", "POST", "PUT", "DELETE", "HEAD", "OPTIONS", "PATCH", "TRACE"} {
+			ops = append(ops, LbOp{K: "begin", Rid: i + 1, Remote: "10.0.0.1:1", Meth: m}, LbOp{K: "end", Rid: i + 1, Code: 200})
+		}
+		ops = append(ops, LbOp{K: "metrics"})
+		out = append(out, LbCase{Strategy: "round_robin", Backends: []int{1, 1}, Ops: ops})
+	}
+	// C04: the health mirror of the metrics still follows the flag after the process has seen more than a thousand backend names
+	{
+		var ops []LbOp
+		for i := 0; i < 1001; i++ {
+			ops = append(ops, LbOp{K: "add", Name: 100 + i, W: 1, Addr: fmt.Sprintf("http://c%d.invalid:80", i)}, LbOp{K: "rm", Name: 100 + i})
+		}
+		ops = append(ops, LbOp{K: "begin", Rid: 1, Remote: "10.0.0.1:1"}, LbOp{K: "end", Rid: 1, Code: 500}, LbOp{K: "metrics"}, LbOp{K: "list"},
+			LbOp{K: "begin", Rid: 2, Remote: "10.0.0.1:1"}, LbOp{K: "end", Rid: 2, Code: 200}, LbOp{K: "metrics"})
+		out = append(out, LbCase{Strategy: "round_robin", Backends: []int{1, 1}, Passive: true, PThr: 1, PTimeout: 30, Ops: ops})
+	}
 	// C07 at balancer level: threshold 2, five 500s
 	out = append(out, LbCase{Strategy: "round_robin", Backends: []int{1, 1}, Brk: true, BMax: 1, BInterval: 60, BTimeout: 60, BFthr: 2, BSthr: 1, Ops: []LbOp{
 		{K: "begin", Rid: 1, Remote: "10.0.0.1:1"}, {K: "end", Rid: 1, Code: 500}, {K: "begin", Rid: 2, Remote: "10.0.0.1:1"}, {K: "end", Rid: 2, Code: 500},
